@@ -230,7 +230,7 @@ def c07(tier, seed):
 def c09(tier, seed):
     agg = Agg("C09", tier, seed)
     sols = HEAT + EULER + NS + MISC + SA + CHEM
-    cases, points = (500, 8) if tier == "quick" else (6000, 16)
+    cases, points = (1200, 8) if tier == "quick" else (6000, 16)
     shards = pde_shards(pde_exe("plain"), sols, seed, cases, points, "source,exact,grad", dl=True, tag="O0:")
     # the closed-form solutions of C08 (Sod, conjugate normal) against their quad references, reporting for C09 (accuracy bound 2^14 u for the Sod states)
     exe_cl = build.build_bin("plain", "mon_closed", COMMON + ["mon_closed.cpp"], opt="-O2")
@@ -457,6 +457,19 @@ def c14(tier, seed):
         for p in ("d", "l"):
             shards.append(Shard(cat_exe(fl), ["--mode", "c14", "--prec", p, "--seed", str(seed)], "%s/c14/%s" % (fl, p), env=NOLEAK))
     run_env(agg, shards)
+    # the Fortran entry points of the documented evaluators: a module procedure bound to the C symbol of ANOTHER evaluator cannot return the
+    # documented value (compiled artefact check shared with C18; the Fortran module is not part of the default build)
+    try:
+        from . import c18 as _c18
+        bodies = _c18.fortran_interface_bodies(os.path.join(build.repo(), "src"))
+        for fname, label, body in bodies:
+            want = re.sub(r"_passthrough$", "", fname, flags=re.I)
+            if label.lower() != want.lower():
+                agg.viols.append({"key": "fortran-entry-point-bound-to-another-evaluator:" + fname, "msg": "masa.f90: %s is bound to the C symbol '%s': the Fortran entry point of this evaluator runs another one" % (fname, label),
+                                  "detail": {"fortran": fname, "label": label}, "shard": "fortran-labels"})
+        agg.counts["fortran_entry_points_checked"] = len(bodies)
+    except Exception as e:   # noqa: BLE001
+        agg.harness_fail.append("fortran label check: %s" % e)
     unknown = sorted(agg.distinct.get("entries_unknown_to_spec", []))
     missing = sorted(agg.distinct.get("spec_entries_missing_from_build", []))
     cov = {"evaluations": agg.count("evaluator_calls") + agg.count("steps"), "distinct_nontrivial": agg.ndistinct("entries_checked"),
